@@ -870,46 +870,8 @@ state machine started after the opening quote: it returns the decoded value and 
 (`\x`, octal and `\U` escapes are legal Go that the printer never writes; this reading rejects them — the theorem
 only needs the forms the printer produces to be read as Go reads them.) -/
 
-def hexVal (c : Char) : Option Nat :=
-  if '0' ≤ c ∧ c ≤ '9' then some (c.toNat - 48)
-  else if 'a' ≤ c ∧ c ≤ 'f' then some (c.toNat - 87)
-  else if 'A' ≤ c ∧ c ≤ 'F' then some (c.toNat - 55)
-  else none
-
-/-- the single-character escapes valid inside a string literal -/
-def simpleEscape (e : Char) : Option Char :=
-  if e = 'n' then some '\n' else if e = 'r' then some '\r' else if e = 't' then some '\t'
-  else if e = '\\' then some '\\' else if e = '"' then some '"'
-  else if e = 'a' then some (Char.ofNat 7) else if e = 'b' then some (Char.ofNat 8)
-  else if e = 'f' then some (Char.ofNat 12) else if e = 'v' then some (Char.ofNat 11) else none
-
-inductive LexSt where
-  | normal | esc | uni (k acc : Nat)
-
-def consRes (c : Char) : Option (List Char × List Char) → Option (List Char × List Char)
-  | some (s, r) => some (c :: s, r)
-  | none => none
-
-def lexStr : LexSt → List Char → Option (List Char × List Char)
-  | _, [] => none                                         -- literal not terminated
-  | .normal, c :: rest =>
-      if c = '"' then some ([], rest)
-      else if c = '\n' then none                          -- newline in string
-      else if c = '\\' then lexStr .esc rest
-      else consRes c (lexStr .normal rest)
-  | .esc, e :: rest =>
-      if e = 'u' then lexStr (.uni 0 0) rest
-      else match simpleEscape e with
-        | some ch => consRes ch (lexStr .normal rest)
-        | none => none                                    -- unknown escape
-  | .uni k acc, d :: rest =>
-      match hexVal d with
-      | none => none
-      | some x =>
-        if k = 3 then
-          (if 0xD800 ≤ acc * 16 + x ∧ acc * 16 + x ≤ 0xDFFF then none      -- surrogate half
-           else consRes (Char.ofNat (acc * 16 + x)) (lexStr .normal rest))
-        else lexStr (.uni (k + 1) (acc * 16 + x)) rest
+-- `hexVal`, `simpleEscape`, `LexSt`, `consRes`, `lexStr` live in `Model/GoLex.lean` (moved unchanged, round 11: the
+-- character-level lexer uses them)
 
 theorem hexVal_hexDigit : ∀ k : Fin 16, hexVal (hexDigit k.val) = some k.val := by decide
 
